@@ -199,6 +199,7 @@ func (t *ImmutableTree) Get(key []byte) ([]byte, error) {
 			_, result, err := t.root.get(t, key)
 			return result, err
 		}
+		verifYield("immutable.Get.afterFastNode")
 
 		if fastNode == nil {
 			// If the tree is of the latest version and fast node is not in the tree
@@ -263,6 +264,7 @@ func (t *ImmutableTree) Iterator(start, end []byte, ascending bool) (corestore.I
 		if err != nil {
 			return nil, err
 		}
+		verifYield("immutable.Iterator.afterEnabledTest")
 
 		if isFastCacheEnabled {
 			return NewFastIterator(start, end, ascending, t.ndb), nil
